@@ -90,6 +90,27 @@ fn main() {
                 fs::write(p, format!("{{{}}}\n", body.join(", "))).unwrap();
             }
         }
+        "probe-listener" => {
+            // connect and reset immediately, many times; does the listener survive?
+            let rounds: usize = arg(&args, "--rounds").unwrap_or("200").parse().unwrap();
+            let server = conn::Server::start(1024, None, 64, 60, 2);
+            let mut dead_after = None;
+            for i in 0..rounds {
+                match std::net::TcpStream::connect_timeout(&server.addr, std::time::Duration::from_millis(500)) {
+                    Ok(s) => {
+                        conn::abort(&s);
+                        drop(s);
+                    }
+                    Err(_) => {
+                        dead_after = Some(i);
+                        break;
+                    }
+                }
+            }
+            std::thread::sleep(std::time::Duration::from_millis(50));
+            let alive = std::net::TcpStream::connect_timeout(&server.addr, std::time::Duration::from_millis(500)).is_ok();
+            println!("LISTENER alive={} dead_after={:?}", alive, dead_after);
+        }
         "conn-replay" => {
             let text = fs::read_to_string(arg(&args, "--in").expect("--in")).unwrap();
             let mut trace = String::new();
